@@ -2,7 +2,10 @@
 
 package serf
 
-import "net"
+import (
+	"net"
+	"time"
+)
 
 // C12: snapshot I/O failures never crash the node and recording resumes.
 //
@@ -32,7 +35,7 @@ import "net"
 //vf:override os.IsNotExist = github.com/hashicorp/serf/serf.vfIsNotExist
 //vf:unwind 40
 //vf:paths quick=800000 thorough=8000000
-//vf:bound state 0..1 alive node (fixed names: the line format is C10's subject), symbolic clocks; compaction on every append or never on size; steps: (join | failed | clock tick), user event (thorough: + query) - all Lamport times symbolic; fault: any one of the first 12 file-system operations; elapsed time between steps symbolic
+//vf:bound state 0..1 alive node (fixed names: the line format is C10's subject), symbolic clocks; compaction on every append or never on size; steps: (join | failed | clock tick), user event (thorough: + query) - all Lamport times symbolic; fault: any one of the first 12 file-system operations; elapsed time between steps symbolic; last recovery attempt never | a symbolic time back
 //vf:outside more than one fault; faults while the pre-state is written
 //vf:nonative
 func VfC12_FaultSteps() {
@@ -57,7 +60,15 @@ func VfC12_FaultSteps() {
 	if vfBool("otherNode") {
 		name = "b"
 	}
+	// an earlier recovery attempt may lie a symbolic time back (within the 30 s retry interval or not)
+	L0 := s.lastAttemptedCompaction
+	if vfBool("recentAttempt") {
+		L0 = vfTime("lastAttempt")
+		vfAssume(!L0.After(time.Now()))
+		s.lastAttemptedCompaction = L0
+	}
 	vfOps = 0
+	vfTruncOpens = 0
 	vfFailAt = 1 + vfChoice("failAt", 12)
 	switch vfChoice("step1", 3) {
 	case 0:
@@ -70,9 +81,17 @@ func VfC12_FaultSteps() {
 	vfReach("C12.step1.survived")
 	faultInStep1 := vfOps >= vfFailAt
 	vfFailAt = -1 // the fault was transient
+	// retry rule: a failed append re-attempts the compaction when the last ATTEMPT is more than 30 s back. If
+	// step 1 left the snapshotter broken without attempting a compaction (none was due yet) and by step 2 the
+	// last attempt is more than 30 s back, step 2 must attempt one - on a file system that works again.
+	attempted1 := vfTruncOpens > 0
+	broken1 := s.buffered == nil || s.fh == nil || s.buffered.Flush() != nil
+	retryDue := broken1 && !attempted1 && time.Now().Sub(L0) > snapshotErrorRecoveryInterval
 	before2 := s.lastAttemptedCompaction
 	ops2 := vfOps
-	s.processUserEvent(UserEvent{LTime: LamportTime(vfU64("elt")), Name: "e"})
+	elt := LamportTime(vfU64("elt"))
+	retryDue = retryDue && elt > s.lastEventClock // ... provided step 2 records something at all
+	s.processUserEvent(UserEvent{LTime: elt, Name: "e"})
 	vfReach("C12.step2.survived")
 	// a recovery compaction that ran in step 2 (after the fault had cleared) must have brought the snapshot back
 	recoveryRan := faultInStep1 && !s.lastAttemptedCompaction.Equal(before2)
@@ -85,6 +104,7 @@ func VfC12_FaultSteps() {
 	healthy := s.buffered != nil && s.fh != nil && s.buffered.Flush() == nil
 	vfAssert("C12.fault.cleared.eventually.healthy", vfImplies(!faultHappened, healthy))
 	vfAssert("C12.recovery.compaction.restores.recording", vfImplies(recoveryRan, healthy))
+	vfAssert("C12.recovery.retry.when.due", vfImplies(retryDue, healthy))
 	if healthy {
 		vfSnapRestartMatches(s, "C12.resumed")
 	}
